@@ -219,7 +219,7 @@ func c06Eval(sets []*c06Set, nPerm int, perSite bool, r *kit.Rng, budget *kit.Bu
 			}
 			for key, want := range s.Set.Lists {
 				got := ref.OrderTrace[key]
-				if _, there := ref.OrderTrace["seen:"+key[strings.Index(key, ":")+1:]]; !there && !strings.HasPrefix(key, "rev:") && !strings.HasPrefix(key, "idbase:") {
+				if _, there := ref.OrderTrace["seen:"+key[strings.Index(key, ":")+1:]]; !there && !strings.HasPrefix(key, "rev:") && !strings.HasPrefix(key, "idbase:") && !strings.HasPrefix(key, "features:") {
 					continue // written in a grouping nobody uses, or removed by the deviation
 				}
 				if strings.Join(got, "\x00") != strings.Join(want, "\x00") {
